@@ -88,18 +88,18 @@ impl<L: Language, N: Analysis<L>> EGraph<L, N> {
 
         let syn_slots = &self.syn_slots(id);
         let c = self.classes.get_mut(&id).unwrap();
-        let grp = &c.group;
-
-        let mut final_cap = cap.clone();
-
-        // d is a newly redundant slot.
-        for d in &c.slots - &cap {
-            // if d is redundant, then also the orbit of d is redundant.
-            final_cap = &final_cap - &grp.orbit(d);
-        }
 
         c.slots = cap.clone();
-        let generators = c.group.generators();
+
+        // If d is redundant, then also the orbit of d is redundant.
+        // A generator that maps a remaining slot to a dropped one (or vice versa) is no longer a
+        // permutation of the remaining slots. It can't stay in the group; instead its equation is
+        // re-asserted below, which makes the rest of the orbit redundant as well.
+        let (generators, orbit_generators): (HashSet<ProvenPerm>, HashSet<ProvenPerm>) = c
+            .group
+            .generators()
+            .into_iter()
+            .partition(|p| p.iter().all(|(x, y)| cap.contains(&x) == cap.contains(&y)));
         let _ = c;
 
         let restrict_proven = |proven_perm: ProvenPerm| {
@@ -137,6 +137,16 @@ impl<L: Language, N: Analysis<L>> EGraph<L, N> {
         c.group = Group::new(&identity, generators);
 
         self.touched_class(from.id, PendingType::Full);
+
+        for proven_perm in orbit_generators {
+            let l = AppliedId::new(id, SlotMap::identity(&proven_perm.elem.keys()));
+            let r = AppliedId::new(id, proven_perm.elem.clone());
+            #[cfg(feature = "explanations")]
+            let proof = proven_perm.proof.clone();
+            #[cfg(not(feature = "explanations"))]
+            let proof = ();
+            self.union_internal(&l, &r, proof);
+        }
     }
 
     pub(crate) fn rebuild(&mut self) {
